@@ -118,7 +118,14 @@ def gen_case(rng: random.Random, cfg: str) -> dict:
     calls = []
     for _ in range(n):
         cancel = rng.choice([None, None, "early", "running", "running", "late"])
-        calls.append({"kind": rng.choice(KINDS), "abandon": rng.random() < 0.3,
+        kind = rng.choice(KINDS)
+        abandon = rng.random() < 0.3
+        if kind == "cb_run_lock" and abandon and rng.random() < 0.75:
+            # (the abandoned variant is the open finding F23 and each hit costs a spin of
+            # SPIN_LIMIT loop iterations: keep it, but rare)
+            abandon = False
+
+        calls.append({"kind": kind, "abandon": abandon,
                       "nested": rng.random() < 0.4, "cancel": cancel,
                       "stagger": rng.randint(0, 3),
                       # the cancelled scope around the call may itself be shielded (cleanup
@@ -171,7 +178,7 @@ def execute(case: dict) -> dict:
         await checkpoint()
         return ("acb", x)
 
-    SPIN_LIMIT = 3000
+    SPIN_LIMIT = 800
 
     async def acb_lock(x: int) -> tuple:
         """takes an uncontended lock: completes after one yield, or - when the caller of
